@@ -203,6 +203,10 @@ def run(ctx, rep):
     rule_allsources(ctx, rep, rid="R-C06-allsources")
     from rules.c02 import rule_stackend
     rule_stackend(ctx, rep, rid="R-C06-stackend")
+    from rules.c11 import rule_keyorder
+    rule_keyorder(ctx, rep, rid="R-C06-keyorder")
+    from rules import c06_globals
+    c06_globals.run(ctx, rep, rid="R-C06-globals")
     from rules.c02 import rule_bracket
     rule_bracket(ctx, rep, rid="R-C06-bracket")
     # the topological sort is what makes the later transforms independent of the order of declarations: a reference and its
